@@ -44,7 +44,7 @@ def run(prop, tier, seed, chk):
     cli = os.path.join(chk.TARGET, "debug", "pushr")
 
     os.makedirs(os.path.join(chk.ROOT, "tmp"), exist_ok=True)
-    fams = [dict(name="order", profiles=["checked", "release"], shards=1, digests=True, extra=[], crumbs=False), dict(name="pairs", profiles=["checked"], shards=12, digests=False, extra=[], crumbs=False)]
+    fams = [dict(name="order", profiles=["checked", "release"], shards=1, digests=True, extra=[], crumbs=False), dict(name="orderrev", profiles=["checked"], shards=1, digests=True, extra=[], crumbs=False), dict(name="pairs", profiles=["checked"], shards=12, digests=False, extra=[], crumbs=False)]
     jobs = []
     for f in fams:
         for p in f["profiles"]:
@@ -55,6 +55,27 @@ def run(prop, tier, seed, chk):
 
     extra_viol, notes = [], {}
     os.makedirs(os.path.join(chk.REPLAYS, prop), exist_ok=True)
+
+    # --- execution order across processes: forward-first vs reverse-first digests of the same cases
+    def table(fam):
+        t = {}
+        path = os.path.join(chk.ROOT, "tmp", "dig-%s-%s-checked-0" % (prop, fam))
+        if os.path.exists(path):
+            for line in open(path):
+                a, b = line.split()
+                t.setdefault(int(a), b)  # first digest written for a case id (the forward pass writes one per case)
+        return t
+
+    fwd, rev = table("order"), table("orderrev")
+    differing = sorted(c for c in fwd if c in rev and fwd[c] != rev[c])
+    notes["order_cases_compared_across_processes"] = len(set(fwd) & set(rev))
+    for c in differing[:3]:
+        path = os.path.join(chk.REPLAYS, prop, "order-%d.json" % c)
+        json.dump(dict(prop=prop, family="order", profile="checked", tier=tier, case=c, extra=[], shard=0, nshards=1, site="execution order", cls="outcome depends on what ran earlier in the process"), open(path, "w"), indent=1)
+        extra_viol.append((path, dict(site="execution order", cls="the same step gives a different result in a process that ran the sweep in the opposite order (%d cases differ)" % len(differing), descr="sweep case %d; replay prints the case" % c, detail="")))
+    p = os.path.join(chk.ROOT, "tmp", "dig-%s-orderrev-checked-0" % prop)
+    if os.path.exists(p):
+        os.remove(p)
 
     # --- CLI = library
     out = subprocess.run([chk.bin_path("checked"), prop, "clidump", "--tier", tier], stdout=subprocess.PIPE, stderr=subprocess.DEVNULL, env={k: v for k, v in env.items() if k != "MCW_RESULT_FD"}, text=True).stdout
